@@ -1,6 +1,6 @@
 (* C19 — ACK/SACK tracker.  Statements closed by [exact], non-vacuity examples, Print Assumptions. *)
 From LT Require Import Base.Prelude Base.CInt Gen.Kernels Model.AckTracker
-  Proofs.Seq32 Proofs.ISetFacts Proofs.AckRange.
+  Proofs.Seq32 Proofs.ISetFacts Proofs.AckRange Proofs.AckRefine.
 Local Open Scope Z_scope.
 
 (* the interval-set operations the tracker relies on, by membership, canonical form preserved:
@@ -49,3 +49,48 @@ Example C19_nonvacuous :
   a_ivs (ack_process (ack_new 4294967290 true) 4294967292 true [4294967294; 3; 10; 20])
     = [(0, 2); (10, 19); (4294967294, 4294967295)].
 Proof. vm_compute. repeat split; try congruence; reflexivity. Qed.
+
+(* "For any history of TCP acknowledgements and SACK blocks emitted by a conforming receiver ..., including histories that wrap
+   the 32-bit sequence space, the tracker's cumulative ACK equals the highest contiguously acknowledged position, its set of
+   SACKed intervals is exactly the set of selectively acknowledged byte ranges above that position":
+   for EVERY initial sequence number and EVERY finite history of packets (ack, SACK blocks) in which the cumulative ACK never
+   moves backwards (and at most half the sequence space forwards per packet) and every block [l, r) lies strictly above it within
+   half the sequence space, the tracker ends with the last cumulative ACK, a canonical interval set of 32-bit numbers, and a
+   sequence number is in that set iff the specification (drop what the new cumulative ACK covers, add the blocks: [spec_set])
+   says it is selectively acknowledged; everything in the set lies above the cumulative ACK. *)
+Theorem C19_tracker_refines_acknowledged_byte_set : forall a0 h, u32 a0 -> conforming a0 h ->
+  let st := run_ack (ack_new a0 true) h in
+  a_ack st = spec_ack a0 h /\ canon (-1) (a_ivs st) /\ (forall x, imem x (a_ivs st) -> u32 x) /\
+  (forall x, u32 x -> (imem x (a_ivs st) <-> spec_set (fun _ => False) h x)) /\
+  (forall x, spec_set (fun _ => False) h x -> above (spec_ack a0 h) x).
+Proof. exact tracker_refines_byte_set. Qed.
+Print Assumptions C19_tracker_refines_acknowledged_byte_set.
+
+(* one packet: the specification step [A_step] is what the tracker does *)
+Theorem C19_one_packet : forall st a A a' blks, TInv st a A -> u32 a -> u32 a' -> rel a a' < 2147483648 ->
+  Forall (blk_ok a') blks -> TInv (ack_process st a' true (edges_of blks)) a' (A_step a' blks A).
+Proof. exact ack_step_refines. Qed.
+Print Assumptions C19_one_packet.
+
+(* non-vacuity: a history that wraps 2^32 (ACK 2^32-6 -> 2^32-4 -> 3, blocks across the wrap) is conforming, and the tracker's
+   set is what the specification says *)
+Example C19_refinement_nonvacuous :
+  let h := [(4294967292, [(4294967294, 3); (10, 20)]); (4294967292, [(30, 40)]); (3, [(10, 20); (30, 40)])] in
+  conforming 4294967290 h /\
+  a_ivs (run_ack (ack_new 4294967290 true) h) = [(10, 19); (30, 39)] /\ a_ack (run_ack (ack_new 4294967290 true) h) = 3.
+Proof.
+  cbn zeta. split; [|split; vm_compute; reflexivity].
+  cbn [conforming]. unfold u32, rel, blk_ok. cbn [fst snd].
+  repeat split; try (repeat constructor; cbn [fst snd]; unfold u32, rel; vm_compute; intuition congruence); vm_compute; congruence.
+Qed.
+
+(* "a segment is reported acknowledged if and only if every one of its bytes lies below the cumulative ACK or inside a SACKed
+   range": in every state the refinement reaches ([TInv]: cumulative ACK a, set A of selectively acknowledged numbers), for every
+   segment of 1 .. 2^31-1 bytes that starts at or below the cumulative ACK within half the sequence space, or lies above it
+   within half the sequence space (wrap-around of the segment, of the ACK and of the SACKed ranges included) *)
+Theorem C19_segment_acked_iff_every_byte : forall st a A seq len, TInv st a A -> u32 a -> u32 seq -> 0 < len < 2147483648 ->
+  (rel seq a < 2147483648 \/ rel a seq + len <= 2147483647) ->
+  (is_segment_acked st seq len = true <->
+   forall x, u32 x -> rel seq x < len -> (0 < rel x a < 2147483648) \/ A x).
+Proof. exact seg_acked_spec. Qed.
+Print Assumptions C19_segment_acked_iff_every_byte.
